@@ -86,12 +86,15 @@ Qed.
 Fixpoint occ (n : string) (s : list string) : nat :=
   match s with [] => 0 | x :: r => (if String.eqb n x then 1 else 0) + occ n r end.
 
+Lemma iter_shift {A} (f : A -> A) k x : Nat.iter k f (f x) = f (Nat.iter k f x).
+Proof. induction k; simpl; [reflexivity|]. rewrite IHk. reflexivity. Qed.
+
 Lemma merge_state : forall s st n,
   nstate (fold_left merge_one_n s st) n = Nat.iter (occ n s) nstep (nstate st n).
 Proof.
   induction s as [|m r IH]; intros st n; simpl; [reflexivity|].
   rewrite IH, merge_one_state. destruct (String.eqb n m); simpl.
-  - rewrite <- Nat.iter_succ_r. reflexivity.
+  - rewrite iter_shift. reflexivity.
   - reflexivity.
 Qed.
 
@@ -163,6 +166,9 @@ Section Names.
   Definition fields_with (n : string) (embs : list tree) : nat :=
     List.length (filter (fun f => mem n (N f)) embs).
 
+  Lemma nstate_init (own' : list string) n : nstate ([], own') n = if mem n own' then 2 else 0.
+  Proof. unfold nstate. cbn [fst snd]. destruct (mem n own'); reflexivity. Qed.
+
   Lemma mem_nstate_1 st n : wf_state st -> (In n (fst st) /\ ~ In n (snd st)) <-> nstate st n = 1.
   Proof.
     intros _. unfold nstate. destruct (mem n (snd st)) eqn:E1; destruct (mem n (fst st)) eqn:E2.
@@ -196,8 +202,9 @@ Section Names.
   Proof.
     intros Hown Hembs. rewrite iface_names_unfold. cbv zeta.
     set (own' := filter visn (map m_name own)).
-    destruct emb; simpl negb; cbv iota.
-    2:{ split; [auto|]. intros [H|[H _]]; [assumption|discriminate]. }
+    destruct (negb emb) eqn:Eemb.
+    { apply negb_true_iff in Eemb. split; [auto|]. intros [H|[H _]]; [assumption|congruence]. }
+    apply negb_false_iff in Eemb.
     set (st := fold_left merge_one_n (flat_map N embs) ([], own')).
     assert (Hwf : wf_state st) by (apply merge_wf; constructor).
     assert (Hdis : forall x, In x (fst st) -> ~ In x (snd st)).
@@ -205,19 +212,17 @@ Section Names.
     assert (Hst : nstate st n = Nat.iter (occ n (flat_map N embs)) nstep (nstate ([], own') n))
       by apply merge_state.
     rewrite (occ_flat_map N n embs Hembs) in Hst. fold (fields_with n embs) in Hst.
-    rewrite iter_nstep in Hst.
+    rewrite iter_nstep, nstate_init in Hst.
     rewrite in_app_iff, filter_In.
     split.
     - intros [H|[H Hf]]; [left; assumption|].
       destruct (mem n own') eqn:Eo; [left; apply mem_In; assumption|]. right.
       assert (H1 : nstate st n = 1) by (apply mem_nstate_1; auto).
-      unfold nstate at 2 in Hst. cbn [fst snd] in Hst. rewrite Eo in Hst. simpl in Hst.
-      split; [reflexivity|]. split; [apply mem_false; assumption|]. split.
+      split; [exact Eemb|]. split; [apply mem_false; assumption|]. split.
       + intros ->. simpl in Hf. assumption.
       + destruct (fields_with n embs) as [|[|k]]; simpl in Hst; congruence.
     - intros [H|[_ [Hno [Hms H1]]]]; [left; assumption|]. right.
-      unfold nstate at 2 in Hst. cbn [fst snd] in Hst.
-      apply mem_false in Hno. rewrite Hno in Hst. rewrite H1 in Hst. simpl in Hst.
+      apply mem_false in Hno. rewrite Hno, H1 in Hst. simpl in Hst.
       apply mem_nstate_1 in Hst as [Hin _]; [|assumption]. split; [assumption|].
       destruct ms_filter; simpl; auto.
   Qed.
@@ -235,7 +240,7 @@ Section Names.
       assert (H2 : nstate st x = Nat.iter (occ x (flat_map N embs)) nstep
                                          (nstate ([], filter visn (map m_name own)) x))
         by apply merge_state.
-      unfold nstate at 2 in H2. cbn [fst snd] in H2. apply mem_In in Hi. rewrite Hi in H2.
+      rewrite nstate_init in H2. apply mem_In in Hi. rewrite Hi in H2.
       assert (H3 : Nat.iter (occ x (flat_map N embs)) nstep 2 = 2).
       { generalize (occ x (flat_map N embs)). induction n; simpl; [reflexivity|]. rewrite IHn. reflexivity. }
       rewrite H3 in H2. unfold nstate in H2.
